@@ -121,6 +121,7 @@ class C01(PropCheck):
                 continue
             names, ops = l.split(" ; "), parse_out(io)
             expect = []   # payloads the peer still has to return, in order: (pipe, data)
+            last_acc = None   # (pid, address, data) of the ESB packet the peer's radio accepted last
             what = None
             last_pipe = None
             for k, (name, o) in enumerate(zip(names, ops)):
@@ -152,13 +153,29 @@ class C01(PropCheck):
                             break
                         continue
                     room = len([x for x in (prev[1]["rxf"][1:-1].split(",") if prev else []) if x])
+                    air = [r for r in (o["air"][1:-1].split(",") if o["air"] not in ("[]", "") else []) if r.startswith("0>")]
                     for b in bufs:
                         data = bytes.fromhex(b[2:]) if b[2:] != "-" else b""
                         if dyn and not 1 <= len(data) <= 32:
                             continue
                         if not dyn:
                             data = (data + bytes(plen))[:plen]
+                        # the packet as it went on the air (PID, address): Enhanced ShockBurst receivers acknowledge but
+                        # discard a packet whose PID and CRC equal those of the packet they accepted last (product
+                        # specification 7.5.2) - with a 2-bit PID, the same bytes sent again 4 loads later are such a
+                        # packet.  That is the radio's behaviour, not the driver's: such a payload is not outstanding.
+                        key = None
+                        for j, r in enumerate(air):
+                            f = r.rsplit("x", 1)[0].split("/")
+                            if f[-1] == (data.hex() or "-"):
+                                key = (f[6], f[5], f[-1]) if f[3] == "e1" else None
+                                del air[: j + 1]
+                                break
+                        if key is not None and key == last_acc:
+                            continue
                         if room < 3:
+                            if key is not None:
+                                last_acc = key
                             # which pipe of b listens on a's TX address
                             aw = int(rb["aw"]) + 2
                             txa = ra["tx"][: 2 * aw]
